@@ -22,7 +22,7 @@ pub fn expressions(tier: Tier) -> Vec<String> {
     .map(|s| s.to_string())
     .collect();
     if tier == Tier::Thorough {
-        for s in ["a.b.c", "a[-1]", "a[1:]", "a[].b", "max_by(a, &b)", "sort(a)", "join(', ', a)", "`[1, 2.50, -0.0, 1e2]`", "a | [0]", "!a", "a && b", "`{\"k\": {\"k\": [1, {\"k\": null}]}}`", "  @  ", "\t\n@", "é", "a..b", "&a", "[ ]", "a[*][b]", "-"] {
+        for s in ["a.b.c", "a[-1]", "a[1:]", "a[].b", "max_by(a, &b)", "sort(a)", "join(', ', a)", "`[1, 2.50, -0.0, 1e2]`", "a | [0]", "!a", "a && b", "`{\"k\": {\"k\": [1, {\"k\": null}]}}`", "  @  ", "\t\n@", "é", "a..b", "[ ]", "a[*][b]", "-"] {
             v.push(s.to_string());
         }
     }
